@@ -457,7 +457,8 @@ func brun(args []string) error {
 	}
 	cw.Flush()
 	cf.Close()
-	outcomes := runCases(casesPath, len(kinds), *dir, 4) // hostile lengths make the converter request multi-GiB buffers: few workers at a time
+	casesASGiB = 24
+	outcomes := runCases(casesPath, len(kinds), *dir, 3) // hostile lengths make the converter request multi-GiB buffers: few workers at a time
 	tr := wl.NewTrace()
 	tr.Add(wl.Ev{"ev": "Run", "id": "bagcases", "cfg": map[string]any{"external": "cases"}, "lib": wl.Blob(""), "csizes": []any{}})
 	for i, k := range kinds {
